@@ -54,27 +54,40 @@ func propC10(a *Analysis, r *Registry) {
 		}
 		// interpolation indices within bounds
 		b.guard("D-bound", name+"/interpolation-indices", func() {
-			fc := X.FCFor(fn)
 			n := 0
 			bad := ""
-			fc.Ctx.Instrs(func(in ssa.Instruction) {
-				ia, ok := in.(*ssa.IndexAddr)
-				if !ok {
-					return
-				}
-				idx := fc.Val(ia.Index)
-				if len(FindFn(idx, "math.Modf#0")) == 0 {
-					return
-				}
-				n++
-				g := fc.SignerAt(ia)
-				ln := X.S.MakeFn("len", fc.Val(ia.X))
-				if !g.NonNeg(idx) || !g.Pos(ln.Sub(idx)) {
-					bad += " index " + clip(idx.String(), 80) + " at " + a.W.InstrPos(ia) + " not provably within [0,len)"
-				}
-			})
-			if n < 3 {
-				r.Undecided("D-bound", name+"/interpolation-indices", b.pos(fn), "expected the three interpolation index expressions")
+			var seenIdx []*RF
+			// the interpolation may sit in Quantile or in a helper it hands the sorted data to
+			for _, fc := range X.FCFor(fn).BoundCallees(2) {
+				fc := fc
+				fc.Ctx.Instrs(func(in ssa.Instruction) {
+					ia, ok := in.(*ssa.IndexAddr)
+					if !ok {
+						return
+					}
+					idx := fc.Val(ia.Index)
+					if len(FindFn(idx, "math.Modf#0")) == 0 {
+						return
+					}
+					dup := false
+					for _, d := range seenIdx {
+						if d.Equal(idx) {
+							dup = true
+						}
+					}
+					if !dup {
+						seenIdx = append(seenIdx, idx)
+						n++
+					}
+					g := fc.SignerAt(ia)
+					ln := X.S.MakeFn("len", fc.Val(ia.X))
+					if !g.NonNeg(idx) || !g.Pos(ln.Sub(idx)) {
+						bad += " index " + clip(idx.String(), 80) + " at " + a.W.InstrPos(ia) + " not provably within [0,len)"
+					}
+				})
+			}
+			if n < 2 {
+				r.Undecided("D-bound", name+"/interpolation-indices", b.pos(fn), "expected the two interpolation indices k-1 and k")
 			} else if bad != "" {
 				r.Fail("D-bound", name+"/interpolation-indices", b.pos(fn), bad)
 			} else {
@@ -86,17 +99,31 @@ func propC10(a *Analysis, r *Registry) {
 			env := X.EnvFor(fn, "s", "q")
 			fc := X.Under(fn, X.AssumeEq(env.MustParse("s.Sorted"), X.S.True()),
 				X.AssumeCond(env.MustParse("s.Weights==nil"), false))
-			var inLoop *ssa.Return
-			var last *ssa.Return
-			for _, rt := range fc.Ctx.Returns() {
-				if fc.Ctx.LoopOf(rt.Block()) != nil || len(fc.Ctx.Facts(rt.Block())) > 0 && hasAtomPrefix(fc.Val(rt.Results[0]), "phi:") {
-					inLoop = rt
-				} else if at := fc.Val(rt.Results[0]).SingleAtom(); at != nil && at.Name == "idx" {
-					last = rt
+			// the scan may sit in Quantile or in a helper it delegates the weighted case to
+			var inLoop, last *ssa.Return
+			cands := append([]*FC{fc}, fc.TailCallees()...)
+			for _, c := range cands {
+				inLoop, last = nil, nil
+				for _, rt := range c.Ctx.Returns() {
+					if c.Ctx.LoopOf(rt.Block()) != nil || len(c.Ctx.Facts(rt.Block())) > 0 && hasAtomPrefix(c.Val(rt.Results[0]), "phi:") {
+						if at := c.Val(rt.Results[0]).SingleAtom(); at != nil && at.Name == "idx" {
+							inLoop = rt
+						}
+					} else if at := c.Val(rt.Results[0]).SingleAtom(); at != nil && at.Name == "idx" {
+						last = rt
+					}
+				}
+				if inLoop != nil && last != nil {
+					fc = c
+					break
 				}
 			}
 			if inLoop == nil || last == nil {
-				anchorFail("weighted scan: returns not found")
+				var vs []string
+				for _, rt := range fc.Ctx.Returns() {
+					vs = append(vs, clip(fc.Val(rt.Results[0]).String(), 120))
+				}
+				anchorFail("weighted scan: returns not found in %s (loops %d): %s", a.W.FuncName(fc.Fn), len(fc.Ctx.Loops()), strings.Join(vs, " | "))
 			}
 			rv := fc.Val(inLoop.Results[0]).SingleAtom()
 			if rv == nil || rv.Name != "idx" {
